@@ -1,5 +1,6 @@
-\* exhaustive: 4 L1 blocks, 3 events, 1 reorg, 1 failure, 1 restart, chunk size in {1,2,10}
-\* measured: 17 338 704 distinct / 71 368 433 generated states, depth 35 (6 min on 16 loaded workers)
+\* exhaustive: 4 L1 blocks, 3 events, 1 reorg, 1 failure, 1 failed write of the head record, 1 restart, chunk size in {1,2,10}
+\* measured: 19 047 218 distinct / 77 731 804 generated states, depth 37 (6 min on 8 loaded workers;
+\*           without write failures 17 338 704 / 71 368 433)
 \* (4 blocks / 4 events: > 25 M distinct states without restarts - not affordable; larger bounds are sampled by trace validation)
 CONSTANTS
   MaxBlocks = 4
